@@ -62,8 +62,8 @@ pub struct Sim {
 fn services(persister: Arc<dyn Persist>, clock: Arc<ManualClock>) -> NodeServices {
     // policy numbers mirrored by lean/VlsModel/Drv/NodeReq.lean (cfg, vc0)
     let mut policy = make_default_simple_policy(Network::Testnet);
-    policy.global_velocity_control = VelocityControlSpec { limit_msat: 10_000_000, interval_type: VelocityControlIntervalType::Hourly };
-    policy.max_invoices = 4;
+    policy.global_velocity_control = VelocityControlSpec { limit_msat: 100_000_000, interval_type: VelocityControlIntervalType::Hourly };
+    policy.max_invoices = 6;
     NodeServices {
         validator_factory: Arc::new(SimpleValidatorFactory::new_with_policy(policy)),
         starting_time_factory: make_genesis_starting_time_factory(Network::Testnet),
@@ -167,6 +167,11 @@ impl Sim {
             persister.update_tracker(&node_ctx.node.get_id(), &tracker).unwrap();
         }
         let chan_ctx = fund_test_channel(&node_ctx, CHANNEL_VALUE);
+        // approve the two payment hashes the commitment contents use, so that commitments carrying
+        // outgoing HTLCs pass the payment-balance validation and reach the later checks
+        // (mirrored by the initial state of lean/VlsModel/Drv/NodeReq.lean)
+        node_ctx.node.add_keysend(make_test_pubkey(1), PaymentHash([3; 32]), 10_000_000).unwrap();
+        node_ctx.node.add_keysend(make_test_pubkey(1), PaymentHash([4; 32]), 12_000_000).unwrap();
         let _ = persister.prepare();
         persister.commit().unwrap();
         Sim {
